@@ -450,6 +450,18 @@ pub fn store_histories() -> Vec<(&'static str, Vec<Op>)> {
             ],
         ),
         (
+            // annotations with two values under one key, sharing data items with others (a key's annotations are then
+            // reached several times, and not adjacently)
+            "two-values-one-key",
+            vec![
+                res1(),
+                ann("a1", simple(tx("r1", 0, 2)), vec![k1("x"), k1("y")]),
+                ann("a2", simple(tx("r1", 3, 5)), vec![k1("x")]),
+                ann("a3", simple(tx("r1", 0, 5)), vec![k1("y"), k2(1)]),
+                ann("a4", simple(tx("r1", 6, 8)), vec![k1("z"), k1("x")]),
+            ],
+        ),
+        (
             "shared-data",
             vec![
                 res1(),
